@@ -79,8 +79,15 @@ def _type_check_boolean(expression, source_file_name, errors, expression_name):
     )
 
 
-def _kind_check_field_reference(expression, source_file_name, errors, expression_name):
-    if expression.which_expression != "field_reference":
+def _kind_check_field_reference(
+    expression, source_file_name, ir, errors, expression_name
+):
+    """Checks that expression is a reference to a field."""
+    # A runtime parameter is referred to in the same way as a field, but it is not
+    # one: it has, for example, no existence condition for `$present()` to take.
+    if expression.which_expression != "field_reference" or not isinstance(
+        ir_util.find_object(expression.field_reference.path[-1], ir), ir_data.Field
+    ):
         errors.append(
             [
                 error.error(
@@ -157,15 +164,20 @@ def _type_check_operation(expression, source_file_name, ir, errors):
     elif function == ir_data.FunctionMapping.CHOICE:
         _type_check_choice_operator(expression, source_file_name, errors)
     else:
-        _type_check_monomorphic_operator(expression, source_file_name, errors)
+        _type_check_monomorphic_operator(expression, source_file_name, ir, errors)
 
 
-def _type_check_monomorphic_operator(expression, source_file_name, errors):
+def _type_check_monomorphic_operator(expression, source_file_name, ir, errors):
     """Type checks an operator that accepts only one set of argument types."""
     args = expression.function.args
     int_args = _type_check_integer
     bool_args = _type_check_boolean
-    field_args = _kind_check_field_reference
+
+    def field_args(argument, source_file_name, errors, argument_name):
+        _kind_check_field_reference(
+            argument, source_file_name, ir, errors, argument_name
+        )
+
     int_result = _annotate_as_integer
     bool_result = _annotate_as_boolean
     binary = ("Left argument", "Right argument")
